@@ -688,3 +688,13 @@ impl<Ctx: OptCtx> LoweredToMir<'_, Ctx> {
         crate::verif_hooks::c02::dump_types(&mut ctx)
     }
 }
+
+
+#[cfg(feature = "verif-hooks")]
+impl<Ctx: OptCtx> TypeChecked<'_, Ctx> {
+    /// Verification hook (C13): the scope graph after type checking, one
+    /// line per scope (see `ScopeGraph::verif_c13_dump`).
+    pub fn verif_c13_scopes(&self) -> Vec<String> {
+        self.type_info.scope_graph.verif_c13_dump()
+    }
+}
